@@ -181,4 +181,9 @@ theorem fillKept_step_ok (d : List Bool) (f o : List Rat) (hf : f.length = nKept
           · exact ih fs (by simpa [nKept] using hf) (fun y hy => hnz y (List.mem_cons_of_mem _ hy)) x hx
   exact gen d f hf hnz
 
+/-- **Chains over a non-FITS base are refused**, at every depth (a bare non-FITS WCS included); over a
+FITS base the translation is the one the other theorems describe. -/
+theorem unwrap_nonfits_refused (chain : List Wrapper) (F : Fits) :
+    unwrapAny none chain = .error .typeError ∧ unwrapAny (some F) chain = unwrap F chain := ⟨rfl, rfl⟩
+
 end Ndcube.C15
